@@ -587,7 +587,8 @@ fn match_with_rule<'src>(
             asm::RulePatternPart::Whitespace =>
             {
                 if !walker.is_over() &&
-                    walker.next_token().kind != syntax::TokenKind::Whitespace
+                    walker.next_token().kind != syntax::TokenKind::Whitespace &&
+                    walker.next_token().kind != syntax::TokenKind::Comment
                 {
                     return vec![];
                 }
